@@ -234,7 +234,7 @@ CLAIMED["C03"] = (
     "Koszul sign function",
     "Bounded, against an independent reference (R03.4, R03.5): after x.transpose(perm) every block carries its previous sign times the "
     "sign of the permutation restricted to the odd charges of its sector (the checker's own inversion count; ranks 1-4, all / a third "
-    "of the permutations); in tensordot of even-parity fermionic operands every pair product carries K(a: contracted axes to the end) * "
+    "of the permutations, also written with axes counted from the end - which found and fixed defect D13); in tensordot of even-parity fermionic operands every pair product carries K(a: contracted axes to the end) * "
     "K(b: contracted axes to the front) * K(reversal of the contracted charges) * (-1) per odd contracted pair meeting ket-then-bra, in "
     "the blockwise and in the fused strategy (~530 contractions incl. reversed axis listings, pending signs on both operands). R03.1 / "
     "R03.2: every public operation that contracts a pair or creates a bond inserts exactly the signs of the single ket-then-bra "
@@ -242,7 +242,7 @@ CLAIMED["C03"] = (
     "inversions among odd entries for all parity vectors and permutations up to length 4 (exhaustive). " + BOUNDED,
     "Odd-parity operands with labels are covered by route independence (C04), strategy agreement (C06 K3) and the norm contraction "
     "(C10 R10.4), not by the reference; trace / einsum signs by the convention cross-check; no dense graded calculation on numbers.",
-    "DESIGN.md sections 11 and 19, C03",
+    "DESIGN.md sections 11, 19 and 24, C03",
 )
 
 CLAIMED["C11"] = (
@@ -373,7 +373,7 @@ def main():
                  "all-paths static analysis, and abstract interpretation by the checker's own evaluator over a bounded, enumerated "
                  "family of index tables with opaque block contents ('BOUNDED CLAIM'). Exit 2 + ANALYSIS-ERROR means the analysis "
                  "itself could not proceed (vanished anchor / construct outside the evaluable sub-language), never a property "
-                 "violation. known_findings.json lists genuine defects: 13 fixed entries for the 11 fix: commits in /repo (they suppress nothing) and 3 open (C01 "
+                 "violation. known_findings.json lists genuine defects: 14 fixed entries for the 12 fix: commits in /repo (they suppress nothing) and 3 open (C01 "
                  "expand_dims with an odd charge on a fermionic array; C01 solve with an odd-parity matrix; C07 reshape of an "
                  "all-size-one array to the 0-d shape), each reported as a KNOWN-FINDING line by its check.",
     }
